@@ -357,8 +357,13 @@ func (e *BoundsEngine) form1(v ssa.Value) lin {
 				first = false
 				continue
 			}
-			if len(fe.t) == 1 && fe.t[a.key] == 1 && fe.c >= 0 {
-				continue // self + non-negative step
+			if fe.t[a.key] == 1 {
+				// self + step: fine when the step cannot be negative
+				step := fe.clone()
+				delete(step.t, a.key)
+				if m, okm := e.minOf(step); okm && m >= 0 {
+					continue
+				}
 			}
 			// operand with its own lower bound
 			if m, okm := e.minOf(fe); okm && !e.mentions(fe, a.key) {
